@@ -261,8 +261,62 @@ def seed_baselines():
     return outs
 
 
+M4 = 'from proj.m0 import Item, COUNT\nfrom proj.m1 import Holder\n\ndef make4(n: int) -> Item:\n\treturn Item(n + COUNT)\n\ndef hold4(h: Holder) -> int:\n\treturn h.get()\n'
+
+
+def order_sources():
+    srcs = {name.split('.')[1]: src.replace('c04pool.', 'proj.') for name, src in POOL.items()}
+    srcs['m4'] = M4   # a second importer of m0 and of m1: two targets share their imports
+    return srcs
+
+
+def order_task(task):
+    """One CLI run (bin/transpile) with the targets listed in the given order; returns the generated texts."""
+    import shutil
+    from mc.tranp.workspace import Workspace, scratch_root
+    perm, warm = task
+    root = scratch_root('c04-order-')
+    try:
+        ws = Workspace.create(os.path.join(root, 'ws'), input_globs=tuple(f'proj/{m}.py' for m in perm))
+        for name, src in order_sources().items():
+            ws.write_source(f'proj/{name}.py', src, 1_700_000_000)
+        if warm:
+            # history: a first run with the reversed order leaves its caches and outputs behind
+            ws.write_config(tuple(f'proj/{m}.py' for m in reversed(perm)), ('out/',))
+            ws.run(force=True)
+            ws.write_config(tuple(f'proj/{m}.py' for m in perm), ('out/',))
+        r = ws.run(force=True)
+        return list(perm), warm, list(r), ws.outputs()
+    finally:
+        shutil.rmtree(root, ignore_errors=True)
+
+
+def target_orders(ctx):
+    import itertools
+    names = [n for n in order_sources() if not (ctx.quick and n == 'm3')]
+    perms = list(itertools.permutations(names))
+    tasks = [(p, False) for p in perms] + [(p, True) for p in perms]
+    res = pool.pmap(order_task, tasks, workers=ctx.workers)
+    ref = None
+    for perm, warm, r, outs in res:
+        rep = {'target_order': perm, 'warm': warm}
+        if r[0] != 'ok':
+            ctx.violation(['target-order', 'run-fails', r[1]], f'targets {perm}{" after a run in reverse order" if warm else ""}: {r[1]}: {r[2][:160]}', rep)
+            continue
+        if ref is None:
+            ref = outs
+            if len(outs) != len(names):
+                ctx.violation(['target-order', 'outputs-missing'], f'targets {perm}: {sorted(outs)} generated for {len(names)} targets', rep)
+            continue
+        if outs != ref:
+            diff = sorted(k for k in set(outs) | set(ref) if outs.get(k) != ref.get(k))
+            ctx.violation(['target-order', 'output-differs', 'warm' if warm else 'cold'], f'targets listed as {perm}{" after a run in reverse order" if warm else ""}: {diff} differ from the outputs for the order {list(perms[0])}', rep)
+    return len(tasks)
+
+
 def run(ctx):
     depth = int(os.environ.get('C04_DEPTH', 3 if ctx.quick else 4))
+    n_orders = target_orders(ctx)
     by_seed = seed_baselines()
     base = by_seed['0']
     for seed, b in by_seed.items():
@@ -293,7 +347,7 @@ def run(ctx):
         'traces_validated_against_impl': transitions,
         'samples': samples,
         'max_depth': depth,
-        'bound': f'all operation sequences of length <= {depth} over {len(ops)} operations (load/transpile/unload x {MODS}, submit x {list(MAIN_V)}, transpile __main__); sequences are cut at the first violating operation; hash seeds 0/1/7 for the baselines',
+        'bound': f'all operation sequences of length <= {depth} over {len(ops)} operations (load/transpile/unload x {MODS}, submit x {list(MAIN_V)}, transpile __main__); sequences are cut at the first violating operation; hash seeds 0/1/7 for the baselines; CLI layer: all {n_orders // 2} orders of listing the targets (pool modules{" without m3" if ctx.quick else ""} + m4, a second importer of m0 and m1) in config.yml, each on a fresh workspace and after a run in reverse order ({n_orders} forced CLI runs), outputs byte-equal',
         'exhaustive': True,
         'states_note': 'stateless exploration: every history is its own state (no merging, see DESIGN 1)',
         'alphabet': [list(o) for o in ops],
@@ -301,6 +355,9 @@ def run(ctx):
 
 
 def replay(ctx, data):
+    if 'target_order' in data:
+        target_orders(ctx)
+        return
     if 'history' not in data:
         return
     base = baselines()
